@@ -3,6 +3,7 @@
    Model/Sender.v (tied to spine/send.go by the correspondence harness cmd/c13),
    the property is the trace monitor Spec/SenderSpec.v (the same extracted
    monitor judges the implementation's traces). *)
+From Coq Require Import Sorting.Permutation.
 From Verif Require Import Base.Prelude Gen.GenConsts Model.Sender Spec.SenderSpec Proofs.SenderProofs.
 From Coq Require Import Sorting.Sorted.
 
@@ -42,12 +43,24 @@ Theorem C13_request_memory_bounded : forall ops,
 Proof. exact reqs_bounded. Qed.
 Print Assumptions C13_request_memory_bounded.
 
+(* "Under any concurrent use": overlapping calls are the operation [Burst ks]; each call takes its
+   counter in one atomic step (atomic.AddUint64 in getMsgCounter), so an interleaving of the calls
+   is an order of these steps.  Every such order writes the same counters and reaches the same
+   state as the burst; with C13_counters_unique (whose histories contain bursts) no two datagrams
+   of a connection share a counter under any interleaving.  The runner executes a burst as that
+   many goroutines released together on the real Sender. *)
+Theorem C13_burst_any_interleaving : forall s ks ks', Permutation ks ks' ->
+  written_of (snd (step s (Burst ks))) = written (snd (run s (map Other ks'))) /\
+  fst (step s (Burst ks)) = fst (run s (map Other ks')).
+Proof. exact burst_any_interleaving. Qed.
+Print Assumptions C13_burst_any_interleaving.
+
 (* Non-vacuity: a history that withholds a duplicate, re-enables it by a response,
    and retrieves a notification, with the monitor accepting every step strictly. *)
 Example C13_nonvacuous :
-  let ops := [Request 3; Request 3; Response (Some 1%N); Request 3; Notify 9; Lookup 3; Other 2] in
+  let ops := [Request 3; Request 3; Response (Some 1%N); Request 3; Notify 9; Lookup 3; Other 2; Burst [4; 3; 2]%N] in
   map snd (snd (run init ops)) =
     [[Written 1 0 3; RetCtr 1]; [RetCtr 1]; []; [Written 2 0 3; RetCtr 2];
-     [Written 3 1 9; RetCtr 3]; [Found 9]; [Written 4 2 0]]%N /\
+     [Written 3 1 9; RetCtr 3]; [Found 9]; [Written 4 2 0]; [Written 5 4 0; Written 6 3 0; Written 7 2 0]]%N /\
   strictly_accepted (judge minit sinit (snd (run init ops))) = true.
 Proof. vm_compute. split; reflexivity. Qed.
